@@ -1,9 +1,11 @@
 #!/bin/sh
 # tools/confirm_all.sh <PROP> <test packages...>: confirm seeds 1..3 of a property and print one line each
 P=$1; shift
+# optional: SEED_DIR=<dir name under /tmp/seed, default the property id>, SEED_PREFIX=<tag put before the seed number>
+D=${SEED_DIR:-$P}
 for k in 1 2 3; do
-  [ -f /tmp/seed/$P.out/$k/patch.diff ] || { echo "$P-$k: no patch"; continue; }
-  python3 /verif/tools/confirm_seed.py $P $k /tmp/seed/$P /tmp/seed/$P.out "$@" 2>&1 | python3 -c "
+  [ -f /tmp/seed/$D.out/$k/patch.diff ] || { echo "$P-$k: no patch"; continue; }
+  python3 /verif/tools/confirm_seed.py $P $k /tmp/seed/$D /tmp/seed/$D.out "$@" 2>&1 | python3 -c "
 import sys,json
 try:
     d=json.load(sys.stdin); print(d['seed'],'kept',d['kept'],'demo',d['demo_clean'],d['demo_mut'],d['tests'],'DETECTED' if d['detected'] else 'MISSED', d['check_exit']); print('   ',[l[:220] for l in d['lines'][:3]])
